@@ -69,6 +69,8 @@ type retInfo struct {
 type deferred struct {
 	guard string
 	call  *ssa.Defer
+	set   string // non-empty: a defer inside a loop, collected in this state variable (set of keys)
+	ksort Sort
 }
 
 // Frame is one function activation.
@@ -668,6 +670,14 @@ func (e *Exec) runFrame(fr *Frame, st *State, guard string) (Val, *State, string
 		if isLoopHeader(b) {
 			n++
 			fr.loopOrd[b] = n
+		}
+	}
+	for _, b := range fn.Blocks {
+		for _, ins := range b.Instrs {
+			if d, ok := ins.(*ssa.Defer); ok && inLoop(b) && len(d.Common().Args) == 1 {
+				ks := e.sortOf(d.Common().Args[0].Type())
+				e.set(st, deferSetName(d), ArrSort(ks, SBool), "((as const "+string(ArrSort(ks, SBool))+") false)")
+			}
 		}
 	}
 	e.runBlocks(fr, order, nil, st, guard)
